@@ -90,6 +90,35 @@ impl Resolver<'_> {
         }
     }
 
+    fn slashy_lookup(&self, name: &str) -> Result<Vec<u8>, ()> {
+        if name.contains('/') {
+            (self.read)(name)
+        } else {
+            self.dirs.iter().find_map(|d| (self.read)(&format!("{d}/{name}")).ok()).ok_or(())
+        }
+    }
+
+    /// PREFIX control: a relative name that merely contains a '/' is opened as is
+    pub fn bad_prefix(&self, tz: &str) -> Result<Zone, ()> {
+        if tz.is_empty() {
+            return Err(());
+        }
+        if tz == "localtime" {
+            return decode_file(&(self.read)("/etc/localtime")?);
+        }
+        let mut chars = tz.chars();
+        if chars.next() == Some(':') {
+            return decode_file(&self.slashy_lookup(chars.as_str())?);
+        }
+        match self.slashy_lookup(tz) {
+            Ok(bytes) => decode_file(&bytes),
+            Err(_) => {
+                let rule = decode_string(tz.trim_matches(|c: char| c.is_ascii_whitespace()).as_bytes(), false)?;
+                Ok(Zone(rule.0))
+            }
+        }
+    }
+
     pub fn ok_local(&self) -> Result<Zone, ()> {
         self.ok_resolve("localtime")
     }
